@@ -294,12 +294,19 @@ def main() -> int:
             for N in (1, 2):
                 items.append(('rejected', lf.default_cfg(N=N, B=1, errors=errors, t=t, offset=offset, finite=False,
                                                          faults=False, with_z=True)))
+                if N == 1 and offset == 'zero' or t == 1:   # spans with repeated labels: bookkeeping is by position
+                    items.append(('rejected', lf.default_cfg(N=N, B=1, errors=errors, t=t, offset='zero', finite=False,
+                                                             faults=False, with_z=True, span_kind='dup')))
                 if N == 1:   # catch_first_error off: rejection of pre-existing non-finite values does not depend on it
                     items.append(('rejected', lf.default_cfg(N=N, B=1, errors=errors, t=t, offset=offset, finite=False,
                                                              faults=False, with_z=True, cfe=False)))
                 if N == 1:   # a rejected RE-solve (the period already carries a status) changes nothing either
                     items.append(('rejected', lf.default_cfg(N=N, B=1, errors=errors, t=t, offset=offset, finite=False,
                                                              faults=False, with_z=True, status0='sym')))
+    for errors in ('raise', 'ignore'):
+        for t in (-1, 2, 0):   # repeated labels: the period solved is the one at position t, not the first one carrying its label
+            items.append(('rejected', lf.default_cfg(N=1, B=2, errors=errors, failures='ignore', t=t, offset='zero', finite=False, faults=False,
+                                                     with_z=True, span_kind='dup')))
     results = run_items(dispatch, items, soft_items=[('reads', (p, None)) for p in ps['sampled']])
     twins = [dispatch(('reads', (LAGGED[0], 'lags_zero'))),
              dispatch(('frame', (LAGGED[0], 1, 1, 1, 'raise', 'ignore', False, 'forbid_t'))),
